@@ -220,7 +220,10 @@ def _judge_violating(res, tr, m, kind, choice):
     for ev in tr.events:
         if ev[0] == "guard" and ev[2] is False:
             break
-        if ev[0] == "effect" and ev[1] in forbidden and not ev[3]:
+        # a state requirement (`size < cap`, `size > 0`) is violated exactly when the slot the operation is about lies outside
+        # the element storage: constructing / destroying it before the handler runs touches memory outside that storage
+        slot = kind != "A" and ev[0] == "effect" and ev[1] == "own" and ev[2].get("token") in ("construct", "destroy")
+        if ev[0] == "effect" and (ev[1] in forbidden or slot) and not ev[3]:
             if res.g3 != "REFUTED":
                 res.g3 = "REFUTED"
                 res.g3_witness = {"model": T.show_model(m) + _variant_text(choice),
